@@ -359,15 +359,18 @@ func (c *compiler) evalIfExpression(node *ast.IfExpression) (interface{}, error)
 func (c *compiler) evalElseAndElseIfExpressions(node *ast.IfExpression) (interface{}, error) {
 	var r interface{}
 	for _, eiNode := range node.ElseIf {
+		// a failing condition stands on the line of its own else if, which may be a
+		// later one than the line of the if that starts the chain (a statement that
+		// fails inside a function the condition calls stays the recorded one)
+		owner := c.curStmt
+		c.curStmt = &ast.ExpressionStatement{TokenAble: eiNode.TokenAble, Expression: eiNode.Condition}
 		eiCon, err := c.evalExpression(eiNode.Condition)
 		if err != nil {
 			if !tolerableUnknown(eiNode.Condition, err) {
-				// the failing condition stands on the line of its own else if, which may
-				// be a later one than the line of the if that starts the chain
-				c.curStmt = &ast.ExpressionStatement{TokenAble: eiNode.TokenAble, Expression: eiNode.Condition}
 				return nil, err
 			}
 		}
+		c.curStmt = owner
 
 		if c.isTruthy(eiCon) {
 			return c.evalBlockStatement(eiNode.Block)
